@@ -71,6 +71,9 @@ var props = map[string]propInfo{
 	"C27": {Engine: "bgp", Quick: 20000, Thorough: 600000, BatchSize: 250},
 	"C28": {Engine: "bgp", Quick: 20000, Thorough: 600000, BatchSize: 250},
 	"C29": {Engine: "bgp", Quick: 40000, Thorough: 1200000, BatchSize: 500},
+	"C31": {Engine: "bgp", Quick: 12000, Thorough: 400000, BatchSize: 150},
+	"C32": {Engine: "bgp", Quick: 8000, Thorough: 250000, BatchSize: 100},
+	"C33": {Engine: "bgp", Quick: 12000, Thorough: 400000, BatchSize: 150},
 }
 
 type violation struct {
